@@ -101,6 +101,12 @@ impl Parser {
 
         // not enough data
         if src.len() < frame_len {
+            // a frame announcing more than the allowed size is refused before its payload is
+            // buffered; waiting for the rest first would let the peer make us hold all of it
+            if length > max_size {
+                return Err(ProtocolError::Overflow);
+            }
+
             let min_length = min(length, max_size);
             let required_cap = match idx.checked_add(min_length) {
                 Some(cap) => cap,
